@@ -565,6 +565,7 @@ func (t *failTx) Rollback() error {
 type Env struct {
 	Mem    storage.OpenFGADatastore
 	SQL    storage.OpenFGADatastore
+	DB     *sql.DB
 	Ctl    *Ctl
 	dir    string
 	DBPath string
@@ -582,18 +583,41 @@ func dsn(path string) string {
 
 // OpenSQLite opens the sqlite datastore on `path` through the wrapping driver.
 func OpenSQLite(path string, ctl *Ctl) (storage.OpenFGADatastore, error) {
+	ds, _, err := OpenSQLiteDB(path, ctl)
+	return ds, err
+}
+
+// OpenSQLiteDB is OpenSQLite that also returns the *sql.DB (pool statistics: a transaction left open shows as a
+// connection that stays in use).
+func OpenSQLiteDB(path string, ctl *Ctl) (storage.OpenFGADatastore, *sql.DB, error) {
 	uri, err := sqlite.PrepareDSN(dsn(path))
 	if err != nil {
-		return nil, err
+		return nil, nil, err
 	}
 	plain, err := sql.Open("sqlite", uri)
 	if err != nil {
-		return nil, err
+		return nil, nil, err
 	}
 	inner := plain.Driver()
 	_ = plain.Close()
 	db := sql.OpenDB(connector{dsn: uri, d: &failDriver{inner: inner, ctl: ctl}})
-	return sqlite.NewWithDB(db, sqlcommon.NewConfig())
+	ds, err := sqlite.NewWithDB(db, sqlcommon.NewConfig())
+	return ds, db, err
+}
+
+// LeakedTx reports whether a connection is still checked out of the pool although no call is in flight, i.e. a
+// transaction was neither committed nor rolled back. It then reopens the database so that later cases can run.
+func (e *Env) LeakedTx() bool {
+	if e.DB == nil || e.DB.Stats().InUse == 0 {
+		return false
+	}
+	e.SQL.Close()
+	ds, db, err := OpenSQLiteDB(e.DBPath, e.Ctl)
+	if err != nil {
+		panic(err)
+	}
+	e.SQL, e.DB = ds, db
+	return true
 }
 
 // Migrate creates the schema the way the repo's own storage test fixture does (goose + embedded migrations).
@@ -621,11 +645,11 @@ func GetEnv() *Env {
 		if err := Migrate(e.DBPath); err != nil {
 			panic(err)
 		}
-		ds, err := OpenSQLite(e.DBPath, e.Ctl)
+		ds, db, err := OpenSQLiteDB(e.DBPath, e.Ctl)
 		if err != nil {
 			panic(err)
 		}
-		e.SQL = ds
+		e.SQL, e.DB = ds, db
 		m := parser.MustTransformDSLToProto(ModelDSL)
 		e.model = m
 		env = e
@@ -732,6 +756,10 @@ func (s *Session) Write(o Op) string {
 		}
 		err = s.DS.Write(ctx, s.Store, dels, writes, opts...)
 	}
+	if (s.Backend == "sql" || s.Backend == "cmdsql") && s.E != nil && s.E.LeakedTx() {
+		s.DS = s.E.SQL
+		return "LEAKED-TX:" + ErrClass(err)
+	}
 	return ErrClass(err)
 }
 
@@ -752,6 +780,8 @@ func ErrClass(err error) string {
 		return "conflict-insert"
 	case strings.Contains(msg, "deleted by another transaction"):
 		return "conflict-delete"
+	case strings.Contains(msg, "invalid 'object' field format"), strings.Contains(msg, "the 'relation' field is malformed"), strings.Contains(msg, "the 'user' field is malformed"):
+		return "cmd-invalid-key"
 	case strings.Contains(msg, "duplicate tuple in write"):
 		return "cmd-duplicate"
 	case strings.Contains(msg, "invalid on_duplicate option"), strings.Contains(msg, "invalid on_missing option"):
